@@ -41,8 +41,9 @@ ID = "C14"
 LEVEL = "exploration"
 BUDGET = {"quick": 45, "thorough": 900}
 
-DEPLOYMENTS = [("mem", 3.0), ("jf-sym", 3.0), ("rdb", 0.3)]
-DURABLE = {"rdb", "jf-sym"}
+DEPLOYMENTS = [("mem", 3.0), ("jf-sym", 3.0), ("jr", 1.5), ("rdb", 0.3)]
+DURABLE = {"rdb", "jf-sym", "jr"}
+WRITE_SEAMS = ("fs.write", "sql.commit", "redis.eval")
 STUDY_NAME = "c14"
 MAX_LEAVES = 30
 
@@ -51,7 +52,7 @@ EVIDENCE = {
     "assumptions": [
         "sequential only: one optimize call at a time, n_jobs=1 (the property says sequential)",
         "a parameter name keeps its kind (and categorical choices, log flag) throughout a program, as the storage requires; an int/float name may have a different range at a different tree node (the sampler's docstring example), never two ranges at the same node",
-        "fail/prune/interrupt faults are injected after the last suggest of a trial (before that the evaluated combination is not determined); process kills also after 0, 1 or 2 suggest calls",
+        "fail/prune/interrupt faults are injected after the last suggest of a trial (before that the evaluated combination is not determined); process kills also after 0, 1 or 2 suggest calls and inside ask() right before its n-th storage write (the trial may then not exist yet)",
         "a finished search is never resumed (BruteForceSampler/GridSampler re-evaluate a point by design when optimize is called on an exhausted study)",
         "failed, pruned and interrupted evaluations count as visits (as both samplers define); an evaluation cut by a process kill does not (its trial stays RUNNING)",
         "process kills (trial left RUNNING forever) on the durable deployments. GridSampler and BruteForceSampler(avoid_premature_stop=True) promise coverage regardless of running trials: every leaf exactly once. BruteForceSampler(avoid_premature_stop=False) documents that the position held by a running trial counts as taken: leaves below the parameter prefix p at which a worker died may stay unvisited as long as no other trial went below p (once one did, p's node is expanded, the mark on it is void and everything below must be visited); everything else exactly once, and the search stops by itself when only such leaves are left",
@@ -59,8 +60,8 @@ EVIDENCE = {
         "exhaustion coinciding with a chunk end / stopping callback / interrupt: exactly-once only (counter exhausted_at_boundary:*)",
     ],
     "components": {
-        "real": "optuna Study.optimize/ask/tell, Trial.suggest_*, BruteForceSampler, GridSampler, distributions, InMemoryStorage, JournalStorage+JournalFileBackend (symlink lock), RDBStorage on sqlite3 via SQLAlchemy, load_study",
-        "stub": "OS scheduler/processes (simkit), journal file system (SimFS), clocks, uuid",
+        "real": "optuna Study.optimize/ask/tell, Trial.suggest_*, BruteForceSampler, GridSampler, distributions, InMemoryStorage, JournalStorage+JournalFileBackend (symlink lock), JournalStorage+JournalRedisBackend, RDBStorage on sqlite3 via SQLAlchemy, load_study, copy_study",
+        "stub": "OS scheduler/processes (simkit), journal file system (SimFS), Redis (SimRedis), clocks, uuid",
     },
 }
 
@@ -365,7 +366,10 @@ def gen_plan(seed: int, run: int, tier: str) -> dict:
         for f in faults:
             if f["kind"] == "kill" and rng.random() < 0.5:
                 f["after"] = rng.choice([0, 0, 1, 2])  # the process dies after that many suggest calls
-        resume = common.weighted(rng, [("same", 3.0), ("reload", 2.0), ("restart", 3.0)])
+            elif f["kind"] == "kill" and rng.random() < 0.4:
+                f["in_ask"] = rng.choice([0, 1, 2, 2, 3])  # ... before that storage write inside ask()
+        # "copy": the study is copied (copy_study) and the search goes on in the copy
+        resume = common.weighted(rng, [("same", 3.0), ("reload", 2.0), ("restart", 3.0), ("copy", 1.5)])
         ch: dict = {"n_trials": n_trials, "stop_after": stop_after, "faults": faults, "resume": resume}
         if sampler["kind"] == "brute" and rng.random() < 0.5:
             ch["seed"] = rng.randint(0, 99)
@@ -379,6 +383,8 @@ def gen_plan(seed: int, run: int, tier: str) -> dict:
         kf: dict = {"at": at, "kind": "kill"}
         if rng.random() < 0.5:
             kf["after"] = rng.choice([0, 0, 1, 2])
+        elif rng.random() < 0.4:
+            kf["in_ask"] = rng.choice([0, 1, 2, 2, 3])
         c0["faults"] = [f for f in c0["faults"] if f["at"] != at] + [kf]
         c0["faults"].sort(key=lambda f: f["at"])
     # the implicit last chunk (n_trials=None) may carry faults too
@@ -480,6 +486,9 @@ def _run(plan: dict, sim: sched.Sim, ch: sched.Chooser, dep: deploy.Deployment) 
         "evals": [],  # (chunk index, leaf key, outcome)
         "visits": {},  # leaf key -> number of finished evaluations
         "kills": 0,
+        "ask_kills": 0,  # kills inside ask(): the trial may not exist yet
+        "arm": None,
+        "name": STUDY_NAME,
         "killed_at": [],  # parameter prefixes (dicts) of the trials whose process was killed
         "paths": [],  # parameter dicts of every other evaluation
         "verdict": None,
@@ -523,11 +532,14 @@ def _run(plan: dict, sim: sched.Sim, ch: sched.Chooser, dep: deploy.Deployment) 
     def run_chunk(study: Any, proc: Any, ci: int, chunk: dict) -> None:
         faults: dict[int, str] = {}
         fafter: dict[int, int] = {}
+        fask: dict[int, int] = {}
         for f in chunk.get("faults", []):
             k = f.get("kind")
             if k in FAULT_KINDS and (k != "kill" or kills_ok):
                 if int(f.get("at", 0)) not in faults and f.get("after") is not None:
                     fafter[int(f.get("at", 0))] = int(f["after"])
+                if int(f.get("at", 0)) not in faults and k == "kill" and f.get("in_ask") is not None:
+                    fask[int(f.get("at", 0))] = int(f["in_ask"])
                 faults.setdefault(int(f.get("at", 0)), k)
         n_trials = chunk.get("n_trials")
         stop_after = chunk.get("stop_after")
@@ -543,6 +555,8 @@ def _run(plan: dict, sim: sched.Sim, ch: sched.Chooser, dep: deploy.Deployment) 
                 verdict("runaway", "more than %d trials for %d leaves" % (bound, len(leaves)))
                 raise _Abort()
             fk = faults.get(i)
+            if fk == "kill" and i in fask:
+                fk = None  # that kill was aimed at ask(); the trial got through (fewer writes)
             cut = fafter.get(i) if fk == "kill" else None
             try:
                 key, why = walk(trial, prog, cut)
@@ -597,6 +611,19 @@ def _run(plan: dict, sim: sched.Sim, ch: sched.Chooser, dep: deploy.Deployment) 
                 raise _InjectedUncaught("injected")
             return float(len(S["visits"]))
 
+        orig_ask = study.ask
+
+        def ask(*a: Any, **k: Any) -> Any:
+            n = fask.get(c["started"])
+            if n is not None and faults.get(c["started"]) == "kill":
+                S["arm"] = {"n": n, "seen": 0, "ci": ci, "proc": proc, "c": c}
+            try:
+                return orig_ask(*a, **k)
+            finally:
+                S["arm"] = None
+
+        study.ask = ask  # type: ignore[method-assign]
+
         def cb(study_: Any, ft: Any) -> None:
             c["cb"] += 1
             if stop_after is not None and c["cb"] == stop_after:
@@ -642,6 +669,28 @@ def _run(plan: dict, sim: sched.Sim, ch: sched.Chooser, dep: deploy.Deployment) 
             why = "interrupt" if outcome in ("interrupt", "uncaught") else ("callback" if c["cb_stop"] else "n_trials")
             sim.count("exhausted_at_boundary:" + why)
 
+    def fault_hook(task: Any, skind: str, detail: str) -> None:
+        arm = S["arm"]
+        if arm is None or skind not in WRITE_SEAMS or task.proc is not arm["proc"]:
+            return
+        arm["seen"] += 1
+        if arm["seen"] - 1 != arm["n"]:
+            return
+        # the worker dies inside ask(), right before this write reaches the storage
+        S["arm"] = None
+        S["killed_at"].append({})
+        S["evals"].append((arm["ci"], key_of({}), "kill"))
+        sim.note("eval", arm["ci"], "ask", "kill-in-ask", arm["n"])
+        S["kills"] += 1
+        S["ask_kills"] += 1
+        S["faults_fired"] += 1
+        sim.count("fault:kill")
+        sim.count("fault:kill_inside_ask")
+        arm["c"]["cut"] = "kill"
+        sim.crash(task.proc)
+
+    sim.fault_hook = fault_hook
+
     def next_chunk() -> dict:
         ci = S["ci"]
         S["ci"] += 1
@@ -655,9 +704,9 @@ def _run(plan: dict, sim: sched.Sim, ch: sched.Chooser, dep: deploy.Deployment) 
         def body() -> None:
             sampler = _make_sampler(plan, S["next_seed"])
             if life == 0:
-                study = optuna.create_study(storage=st, sampler=sampler, study_name=STUDY_NAME)
+                study = optuna.create_study(storage=st, sampler=sampler, study_name=S["name"])
             else:
-                study = optuna.load_study(study_name=STUDY_NAME, storage=st, sampler=sampler)
+                study = optuna.load_study(study_name=S["name"], storage=st, sampler=sampler)
             while True:
                 ci = S["ci"]
                 chunk = next_chunk()
@@ -671,10 +720,17 @@ def _run(plan: dict, sim: sched.Sim, ch: sched.Chooser, dep: deploy.Deployment) 
                     S["restart"] = True
                     sim.count("resume:restart")
                     return
-                if r in ("reload", "restart"):
+                if r == "copy":
+                    new_name = "%s-copy%d" % (STUDY_NAME, ci)
+                    optuna.copy_study(from_study_name=S["name"], from_storage=st, to_storage=st, to_study_name=new_name)
+                    S["name"] = new_name
+                    sim.count("resume:copy_study")
+                    sampler = _make_sampler(plan, S["next_seed"])
+                    study = optuna.load_study(study_name=S["name"], storage=st, sampler=sampler)
+                elif r in ("reload", "restart"):
                     sim.count("resume:reload")
                     sampler = _make_sampler(plan, S["next_seed"])
-                    study = optuna.load_study(study_name=STUDY_NAME, storage=st, sampler=sampler)
+                    study = optuna.load_study(study_name=S["name"], storage=st, sampler=sampler)
                 else:
                     sim.count("resume:same")
 
@@ -724,7 +780,7 @@ def _run(plan: dict, sim: sched.Sim, ch: sched.Chooser, dep: deploy.Deployment) 
     # ---- final cross-check against what the storage holds (fresh observer on durable media)
     seams.set_sim(sim, dep.fs)
     obs = dep.observer()
-    sid = obs.get_study_id_from_name(STUDY_NAME)
+    sid = obs.get_study_id_from_name(S["name"])
     trials = obs.get_all_trials(sid, deepcopy=False)
     fin: dict[str, int] = {}
     nrunning = 0
@@ -743,7 +799,8 @@ def _run(plan: dict, sim: sched.Sim, ch: sched.Chooser, dep: deploy.Deployment) 
         missing = sorted(leafset - set(fin) - ex_final)
         v = prefix + "storage-mismatch|finished trials in storage are not the leaves exactly once"
         return common.result(sim, ch, "violation", v, "finished trials read back: duplicated/foreign %s missing %s" % (extra[:3], missing[:3]) + detail_tail, nontrivial=nontrivial)
-    if nrunning != S["kills"] or len(trials) != len(S["evals"]):
+    ak = S["ask_kills"]
+    if not (S["kills"] - ak <= nrunning <= S["kills"]) or not (len(S["evals"]) - ak <= len(trials) <= len(S["evals"])):
         v = prefix + "storage-mismatch|trial count or RUNNING count differs from the evaluations made"
         return common.result(sim, ch, "violation", v, "%d trials (%d RUNNING) in storage, %d evaluations (%d killed)" % (len(trials), nrunning, len(S["evals"]), S["kills"]) + detail_tail, nontrivial=nontrivial)
     extra = {"evals": len(S["evals"]), "leaves": nl, "optimize_calls": S["calls"], "sampler:" + skind: 1, "lives": life + 1}
